@@ -47,5 +47,5 @@ Spec == Init /\ [][Next]_l
 Accepted ==
   LET d == TLCGet("stats").diameter IN
   IF d - 1 = Len(Rec) THEN PrintT(<<"ACCEPTED", ToString(Len(Rec))>>)
-  ELSE PrintT(<<"REJECTED", ToJson([at |-> d, run |-> Rec[d].run])>>)
+  ELSE PrintT(<<"REJECTED", ToJson([at |-> d, run |-> IF "run" \in DOMAIN Rec[d] THEN Rec[d].run ELSE 0])>>)
 =============================================================================
